@@ -83,20 +83,33 @@ func vfNewReasmModel() *vfReasmModel {
 
 // push returns whether the fragment belongs to an already delivered message.
 func (m *vfReasmModel) push(f vfFrag) (retransmit bool) {
+	r, _ := m.pushNew(f)
+
+	return r
+}
+
+// pushNew also reports whether the fragment brought something not seen before (a byte, or the first sight of an empty message).
+func (m *vfReasmModel) pushNew(f vfFrag) (retransmit, brought bool) {
 	if f.MsgSeq < m.next {
-		return true
+		return true, false
 	}
 	if _, ok := m.cover[f.MsgSeq]; !ok {
 		m.cover[f.MsgSeq] = make([]bool, f.Total)
 		m.total[f.MsgSeq] = f.Total
 	}
+	if !m.seenAny[f.MsgSeq] && f.Total == 0 {
+		brought = true
+	}
 	m.seenAny[f.MsgSeq] = true
 	c := m.cover[f.MsgSeq]
 	for i := f.Off; i < f.Off+f.Len && i < len(c); i++ {
+		if !c[i] {
+			brought = true
+		}
 		c[i] = true
 	}
 
-	return false
+	return false, brought
 }
 
 // pop returns the message sequences that become deliverable now, in order.
@@ -124,10 +137,14 @@ func vfReasmRun(records [][]vfFrag, totals map[uint16]int) (dev string, class st
 	delivered := 0
 	for ri, rec := range records {
 		buf := vfEncodeRecord(uint64(ri), rec)
-		wantRetransmit := false
+		wantRetransmit, broughtNew := false, false
 		for _, f := range rec {
-			if m.push(f) {
+			r, nw := m.pushNew(f)
+			if r {
 				wantRetransmit = true
+			}
+			if nw {
+				broughtNew = true
 			}
 		}
 		isHS, isRetransmit, err := fb.Push(buf)
@@ -137,8 +154,14 @@ func vfReasmRun(records [][]vfFrag, totals map[uint16]int) (dev string, class st
 		if !isHS {
 			return fmt.Sprintf("Push(record %d) did not recognise a handshake record", ri), "not-handshake"
 		}
-		if isRetransmit != wantRetransmit {
-			return fmt.Sprintf("record %d: retransmission flag %v, reference says %v", ri, isRetransmit, wantRetransmit), "retransmit-flag"
+		// fragments of an already delivered message make the record a retransmission; a record that brings new bytes
+		// of a pending message (and nothing of a delivered one) is new data; a record that only repeats bytes already
+		// held for a pending message may be classified either way (the statement is silent on it)
+		if wantRetransmit && !isRetransmit {
+			return fmt.Sprintf("record %d carries a fragment of an already delivered message but was not flagged as a retransmission", ri), "retransmit-flag"
+		}
+		if !wantRetransmit && broughtNew && isRetransmit {
+			return fmt.Sprintf("record %d brings new bytes of a pending message but was flagged as a retransmission", ri), "retransmit-flag"
 		}
 		want := m.pop()
 		var got [][]byte
